@@ -209,6 +209,12 @@ func (h *Handler) handleMetadata(ss *ShellStream, data []byte) {
 	ss.mu.Lock()
 	defer ss.mu.Unlock()
 
+	// The stream was closed (its peer is gone) between the lookup of ss and
+	// this point: a command started now would run for nobody and never end.
+	if ss.Released {
+		return
+	}
+
 	// Helper to send error and close stream.
 	// Does not call releaseSession because no session is active at these
 	// error points (or release was already done manually), and ss.mu is
